@@ -42,13 +42,15 @@ struct Trace {
 	records: Vec<CallRecord>,
 	/// sink contents after call i (0 = build)
 	sinks: Vec<Vec<u8>>,
+	/// pooled buffers of the serializer configuration once the writer is gone (hook H4)
+	pools: cfw::PoolShape,
 }
 
 fn execute(d: &Datum, u: &Unit, h: &[Op], keep_all_sinks: bool) -> Trace {
 	let (sink, state) = ScheduledSink::accept_all();
-	let mut t = Trace { records: Vec::new(), sinks: Vec::new() };
+	let mut t = Trace { records: Vec::new(), sinks: Vec::new(), pools: cfw::PoolShape::default() };
 	let n = h.len();
-	cfw::run_history(
+	let pools = cfw::run_history(
 		d,
 		u.codec,
 		u.block_size,
@@ -66,7 +68,41 @@ fn execute(d: &Datum, u: &Unit, h: &[Op], keep_all_sinks: bool) -> Trace {
 		},
 		&mut || {},
 	);
+	t.pools = pools;
 	t
+}
+
+/// A panic of any writer call is a violation of its own class. The executor has dropped the
+/// writer under catch_unwind afterwards: what the sink then holds is inspected too (a panic
+/// bypasses the writer's truncate-on-error, so a later flush may write stray bytes).
+fn panic_verdict(d: &Datum, u: &Unit, t: &Trace) -> Option<(String, String)> {
+	let idx = t.records.iter().position(|r| r.result.is_panic() && !r.drop_after_panic)?;
+	let rec = &t.records[idx];
+	let Out::Panic(msg) = &rec.result else { unreachable!() };
+	let expected = expected_after(&t.records[..idx]);
+	let mut what = format!("{} panicked on a sink that accepts everything: {msg}", rec.op_name());
+	let mut class = "call-panicked";
+	let (sink, when) = match t.records.get(idx + 1) {
+		Some(dr) if dr.drop_after_panic => {
+			if let Out::Panic(m2) = &dr.result {
+				what.push_str(&format!("; dropping the writer afterwards panicked too: {m2}"));
+			}
+			(&t.sinks[idx + 1], "after the writer was dropped")
+		}
+		_ => (&t.sinks[idx], "after the panic"),
+	};
+	match cfw::inspect(d, u.codec, sink) {
+		Ok(ins) if ins.values == expected => what.push_str(&format!("; {when} the sink holds a valid file with exactly the values accepted before, {}", describe_values(&expected))),
+		Ok(ins) => {
+			class = "call-panicked-then-wrong-file";
+			what.push_str(&format!("; {when} the sink holds {} (blocks {:?}) while the values accepted before the panic are {}", describe_values(&ins.values), ins.block_counts, describe_values(&expected)));
+		}
+		Err(e) => {
+			class = "call-panicked-then-invalid-file";
+			what.push_str(&format!("; {when} the sink does not hold a valid container file: {e}; sink = [{}]", truncate(&hex(sink), 1200)));
+		}
+	}
+	Some((class.to_owned(), what))
 }
 
 fn describe_values(vs: &[RValue]) -> String {
@@ -138,7 +174,7 @@ fn expected_after(records: &[CallRecord]) -> Vec<RValue> {
 	records.iter().filter(|r| r.result.is_ok()).flat_map(|r| r.values.iter().cloned()).collect()
 }
 
-type Key = (Vec<u8>, Option<(u64, bool, usize)>, u64, bool, u8);
+type Key = (Vec<u8>, Option<(u64, bool, usize)>, u64, bool, u8, Vec<usize>);
 
 /// Evaluate one history for the BFS: exact state key, invariant, expandable.
 fn eval_history(d: &Datum, u: &Unit, h: &[Op], cover: &mut Cover, verbose: bool) -> (Key, Result<(), (String, String)>, bool) {
@@ -152,10 +188,11 @@ fn eval_history(d: &Datum, u: &Unit, h: &[Op], cover: &mut Cover, verbose: bool)
 	cover.impl_runs += 1;
 	cover.evaluations += 1;
 	let at = h.len(); // index of the record of the state (0 = build)
-	if t.records.len() <= at {
+	let first_panic = t.records.iter().position(|r| r.result.is_panic() && !r.drop_after_panic);
+	if t.records.len() <= at || first_panic.map_or(false, |p| p < at) {
 		// an earlier call panicked or the build failed: that history was reported as its own state
 		let last = t.records.last().unwrap();
-		let key: Key = (t.sinks.last().cloned().unwrap_or_default(), None, 0, true, 2);
+		let key: Key = (t.sinks.last().cloned().unwrap_or_default(), None, 0, true, 2, vec![]);
 		let r = if t.records.len() == 1 && !last.result.is_ok() {
 			Err(("build-failed".to_owned(), format!("WriterBuilder::build returned {:?} on a sink that accepts everything", last.result)))
 		} else {
@@ -192,9 +229,12 @@ fn eval_history(d: &Datum, u: &Unit, h: &[Op], cover: &mut Cover, verbose: bool)
 		let grew = at >= 1 && !t.sinks[at - 1].is_empty() && sink.len() > t.sinks[at - 1].len();
 		let prev_hook = t.records[at - 1].hook;
 		match op {
-			Op::Small | Op::Big | Op::Push1 | Op::Push2 => {
+			Op::Small | Op::Big | Op::SmallRev | Op::BigMix | Op::Push1 | Op::Push2 => {
 				if rec.result.is_ok() {
 					cover.count("value_ops_ok", 1);
+					if matches!(op, Op::SmallRev | Op::BigMix) {
+						cover.count("out_of_order_value_ops_ok", 1);
+					}
 					if grew {
 						cover.count("blocks_cut_by_size", 1);
 					}
@@ -202,10 +242,13 @@ fn eval_history(d: &Datum, u: &Unit, h: &[Op], cover: &mut Cover, verbose: bool)
 					cover.count("conforming_value_op_returned_err", 1);
 				}
 			}
-			Op::Fail(_) | Op::BadType | Op::BadLen => {
+			Op::Fail(_) | Op::FailRev(_) | Op::BadType | Op::BadLen => {
 				if rec.result.is_err() {
 					cover.count("failing_ops_err", 1);
-					if d.is_record && op != Op::Fail(0) {
+					if matches!(op, Op::FailRev(k) if k >= 4) {
+						cover.count("failing_ops_err_with_side_buffers_outstanding", 1);
+					}
+					if d.is_record && !matches!(op, Op::Fail(0) | Op::FailRev(_)) {
 						cover.count("failing_ops_err_after_emitting_bytes", 1);
 					}
 					if prev_hook.map_or(false, |h| h.0 > 0) {
@@ -242,7 +285,20 @@ fn eval_history(d: &Datum, u: &Unit, h: &[Op], cover: &mut Cover, verbose: bool)
 	if rec.hook.map_or(false, |h| h.0 > 0) {
 		cover.count("states_with_open_block", 1);
 	}
-	let mut verdict = judge_state(d, u, rec, sink, &expected, cover);
+	if !t.pools.buffers.is_empty() {
+		cover.count("states_with_pooled_side_buffers", 1);
+	}
+	if !t.pools.super_buffers.is_empty() {
+		cover.count("states_with_pooled_super_buffers", 1);
+	}
+	if !t.pools.dirty().is_empty() {
+		// not judged here (C14's invariant), but part of the exact key: such a state is expanded
+		cover.count("states_with_nonempty_pooled_buffer", 1);
+	}
+	let mut verdict = match panic_verdict(d, u, &t) {
+		Some(v) if first_panic == Some(at) => Err(v),
+		_ => judge_state(d, u, rec, sink, &expected, cover),
+	};
 	// close-out: every value accepted so far must be in the file exactly once after into_inner
 	if verdict.is_ok() && !terminal && !rec.result.is_panic() {
 		if let Some(close) = t.records.get(at + 1) {
@@ -253,7 +309,7 @@ fn eval_history(d: &Datum, u: &Unit, h: &[Op], cover: &mut Cover, verbose: bool)
 		cover.nontrivial.insert(hash64(&("bfs", u.datum, u.codec, u.block_size, h)));
 	}
 	let dead = rec.result.is_panic();
-	let key: Key = (sink.clone(), rec.hook, hash64(&expected), terminal, dead as u8);
+	let key: Key = (sink.clone(), rec.hook, hash64(&expected), terminal, dead as u8, t.pools.dirty());
 	(key, verdict, !terminal && !dead)
 }
 
@@ -315,12 +371,14 @@ struct Footprint {
 	final_file: Vec<u8>,
 }
 
-fn footprint(d: &Datum, u: &Unit, h: &[Op]) -> (Footprint, Vec<(Op, Out<()>)>) {
+fn footprint(d: &Datum, u: &Unit, h: &[Op]) -> (Footprint, Vec<(Op, Out<()>)>, Option<(String, String)>) {
 	let t = execute(d, u, h, true);
 	let mut fp = Footprint { steps: Vec::new(), results: Vec::new(), final_file: t.sinks.last().cloned().unwrap_or_default() };
 	let mut failing = Vec::new();
+	let panicked = panic_verdict(d, u, &t);
 	for (i, r) in t.records.iter().enumerate() {
 		match r.op {
+			_ if r.drop_after_panic => {}
 			Some(op) if op.failing() => failing.push((op, r.result.clone())),
 			_ => {
 				fp.steps.push((t.sinks[i].len(), hash64(&t.sinks[i])));
@@ -328,17 +386,23 @@ fn footprint(d: &Datum, u: &Unit, h: &[Op]) -> (Footprint, Vec<(Op, Out<()>)>) {
 			}
 		}
 	}
-	(fp, failing)
+	(fp, failing, panicked)
 }
 
 fn diff_case(d: &Datum, u: &Unit, h: &[Op], memo: &mut HashMap<Vec<Op>, Footprint>, cover: &mut Cover, verbose: bool) -> Result<(), (String, String)> {
-	let (fp, failing) = footprint(d, u, h);
+	let (fp, failing, panicked) = footprint(d, u, h);
 	cover.impl_runs += 1;
 	cover.evaluations += 1;
+	if let Some(v) = panicked {
+		return Err(v);
+	}
 	let clean: Vec<Op> = h.iter().copied().filter(|o| !o.failing()).collect();
 	if !memo.contains_key(&clean) {
-		let (r, _) = footprint(d, u, &clean);
+		let (r, _, ref_panicked) = footprint(d, u, &clean);
 		cover.impl_runs += 1;
+		if let Some((c, w)) = ref_panicked {
+			return Err((c, format!("in the history without the failing calls [{}]: {w}", cfw::hist_names(&clean).join(", "))));
+		}
 		memo.insert(clean.clone(), r);
 	}
 	let reference = &memo[&clean];
@@ -378,15 +442,22 @@ fn diff_case(d: &Datum, u: &Unit, h: &[Op], memo: &mut HashMap<Vec<Op>, Footprin
 	Ok(())
 }
 
-/// One work item of the differential enumeration: all histories `first ++ tail`, tail over the
-/// non-terminal operations, |tail| <= depth - 1, closed by into_inner and by drop.
-fn run_diff_unit(d: &Datum, u: &Unit, depth: usize, max_cases: u64, first: Op) -> (Cover, Vec<Violation>) {
+/// One work item of the differential enumeration: all histories `first ++ tail` of length
+/// 1..=depth (over the full alphabet up to length full_depth, over `cfw::reduced_ops` beyond),
+/// closed by into_inner and by drop.
+fn run_diff_unit(d: &Datum, u: &Unit, full_depth: usize, depth: usize, max_cases: u64, first: Op) -> (Cover, Vec<Violation>) {
 	let mut cover = Cover::default();
 	let mut out = Vec::new();
-	let ops = cfw::nonterminal_ops(d);
+	let full = cfw::nonterminal_ops(d);
+	let reduced = cfw::reduced_ops(d);
 	let mut memo: HashMap<Vec<Op>, Footprint> = HashMap::new();
 	let mut cases = 0u64;
 	'outer: for len in 1..=depth {
+		// the full alphabet up to length full_depth, the reduced one beyond
+		let ops = if len <= full_depth { &full } else { &reduced };
+		if !ops.contains(&first) {
+			continue;
+		}
 		let mut idx = vec![0usize; len - 1];
 		loop {
 			let mut body: Vec<Op> = vec![first];
@@ -462,9 +533,12 @@ pub fn run(rep: &mut Report) {
 	let ds = datums();
 	let us = units(&ds, thorough);
 	let (bfs_depth, diff_depth) = if thorough { (6, 5) } else { (4, 4) };
+	// differential histories: the full alphabet up to this length, `cfw::reduced_ops` beyond
+	let diff_full_depth = 3;
+	let diff_full_depth_null_codec = if thorough { 4 } else { 3 };
 	let (max_states, max_diff) = if thorough { (400_000u64, 2_000_000u64) } else { (60_000u64, 200_000u64) };
 	rep.rule = format!(
-		"HIST: units = datum x codec x approx_block_size ({} codecs; datum 'record': schema {}, small value {} bytes, big value {} bytes, block sizes {:?}, operations {:?}; datum 'null': schema \"null\", every value zero bytes long, block sizes {:?}, operations {:?}). Per unit an explicit-state BFS to depth {bfs_depth} over the operations on a real Writer over an accept-all ScheduledSink; record values are numbered by acceptance order so every datum in a file is distinct; a state is rebuilt by replaying its history; exact key = sink bytes + hook Writer::verif_state() (n_elements_in_block, header pending, open buffer length) + the list of values accepted so far; in every state the sink is parsed by vmodel::container::cf_parse (header schema/codec/pinned sync, whole blocks, sync after every block, codec framing through independent implementations) and every block is decoded datum by datum with vmodel::value::decode (count datums exactly fill the block); oracle: the values in the file are a prefix of the values of the calls that returned Ok, all of them after finish_block / into_inner / drop, and every non-terminal state is additionally closed with into_inner and must then hold all of them exactly once; failing values (injected failure at each nested serialize call of the value, wrong type, array shorter than advertised) must return Err. Differential: every history of 1..={diff_depth} non-terminal operations with at least one failing call, closed by into_inner and by drop, must leave the same sink bytes after every non-failing call and the same final file as the history with the failing calls deleted. Non-trivial: BFS histories with at least one accepted value (distinct on unit + history); every differential history. Accounting: states = distinct exact BFS states (counter bfs_distinct_states) + enumerated differential history bodies; transitions = operations applied by the BFS (bfs_transitions) + differential bodies; executions = histories replayed on the real crate (BFS builds incl. their into_inner close-out, differential histories, their reference histories).",
+		"HIST: units = datum x codec x approx_block_size ({} codecs; datum 'record': schema {}, small value {} bytes, big value {} bytes, block sizes {:?}, operations {:?}; datum 'null': schema \"null\", every value zero bytes long, block sizes {:?}, operations {:?}). Per unit an explicit-state BFS to depth {bfs_depth} over the operations on a real Writer over an accept-all ScheduledSink; record values are numbered by acceptance order so every datum in a file is distinct; a state is rebuilt by replaying its history; exact key = sink bytes + hook Writer::verif_state() (n_elements_in_block, header pending, open buffer length) + the list of values accepted so far + the lengths of the non-empty buffers pooled in the SerializerConfig (hook verif_pools(), read once the writer is gone; empty pooled buffers are taken to behave like fresh ones); in every state the sink is parsed by vmodel::container::cf_parse (header schema/codec/pinned sync, whole blocks, sync after every block, codec framing through independent implementations) and every block is decoded datum by datum with vmodel::value::decode (count datums exactly fill the block); oracle: the values in the file are a prefix of the values of the calls that returned Ok, all of them after finish_block / into_inner / drop, and every non-terminal state is additionally closed with into_inner and must then hold all of them exactly once; failing values (injected failure at each nested serialize call of the value, in schema order and in reverse field order — i.e. with fields put aside in pooled side buffers outstanding —, wrong type, array shorter than advertised) must return Err; ser_small_rev / ser_big_mix present the record fields (incl. the nested record's) out of schema order, same expected bytes; a panic of any call is a violation of its own class, the writer is then dropped under catch_unwind and the sink inspected again (classes call-panicked, call-panicked-then-wrong-file, call-panicked-then-invalid-file). Differential: every history of 1..={diff_depth} non-terminal operations (full alphabet up to length {diff_full_depth}, {diff_full_depth_null_codec} for the null codec; the reduced alphabet {:?} beyond) with at least one failing call, closed by into_inner and by drop, must leave the same sink bytes after every non-failing call and the same final file as the history with the failing calls deleted. Non-trivial: BFS histories with at least one accepted value (distinct on unit + history); every differential history. Accounting: states = distinct exact BFS states (counter bfs_distinct_states) + enumerated differential history bodies; transitions = operations applied by the BFS (bfs_transitions) + differential bodies; executions = histories replayed on the real crate (BFS builds incl. their into_inner close-out, differential histories, their reference histories).",
 		if thorough { 6 } else { 3 },
 		ds[0].schema_text,
 		ds[0].small_len,
@@ -473,6 +547,7 @@ pub fn run(rep: &mut Report) {
 		all_ops(&ds[0]).iter().map(|o| o.name()).collect::<Vec<_>>(),
 		ds[1].block_sizes(),
 		all_ops(&ds[1]).iter().map(|o| o.name()).collect::<Vec<_>>(),
+		cfw::reduced_ops(&ds[0]).iter().map(|o| o.name()).collect::<Vec<_>>(),
 	);
 	rep.assumptions.push("vmodel::container::cf_parse / vmodel::value::decode implement the Avro 1.11 container and binary encodings (codec framing via libflate, snap + own CRC-32, streaming bzip2/xz, zstd decode_all)".into());
 	rep.assumptions.push("the writer is deterministic once the sync marker is pinned, so equal exact keys have equal futures".into());
@@ -493,7 +568,7 @@ pub fn run(rep: &mut Report) {
 		.map(|&(i, first)| {
 			let d = &ds[us[i].datum];
 			match first {
-				Some(f) => run_diff_unit(d, &us[i], diff_depth, per_item_cap, f),
+				Some(f) => run_diff_unit(d, &us[i], if us[i].codec == "null" { diff_full_depth_null_codec } else { diff_full_depth }, diff_depth, per_item_cap, f),
 				None => run_bfs_unit(d, &us[i], bfs_depth, max_states),
 			}
 		})
@@ -512,6 +587,10 @@ pub fn run(rep: &mut Report) {
 		"failing_ops_err",
 		"failing_ops_err_after_emitting_bytes",
 		"failing_ops_with_open_block",
+		"failing_ops_err_with_side_buffers_outstanding",
+		"out_of_order_value_ops_ok",
+		"states_with_pooled_side_buffers",
+		"states_with_pooled_super_buffers",
 		"states_with_open_block",
 		"states_with_multi_object_block",
 		"states_with_zero_byte_block",
